@@ -240,6 +240,69 @@ Theorem C10_quiescent_serializable_partial :
 Proof. exact quiescent_serializable_adds. Qed.
 Print Assumptions C10_quiescent_serializable_partial.
 
+(** ** linearizability of Add / GetLeafValue (programs without Delete and handle
+    Update), by forward simulation to the flat prefix-free map of C09.
+    [reach_lin ops s log ev]: a run to [s] that produced the sequence [ev] of
+    linearization events (thread, answer): terminalAdd's first store or
+    slowAdd's insertion (success), the read that discovers the conflict
+    (failure), Value()'s read / the failed lookup (Get). *)
+
+(** (a) sequential witness: the events, in the order in which they happen and
+    with the answers the calls return, are a run of the specification from the
+    empty map, ending in the abstraction of the current heap *)
+Theorem C10_linearizable_add_get_simulation :
+  forall ops s log ev,
+    forallb quiet_op ops = true -> reach_lin ops s log ev ->
+    exists m, spec_run (fun _ => None) (ev_ops ops ev) m /\ forall q, m q = absf (hp s) q.
+Proof. exact lin_simulation. Qed.
+Print Assumptions C10_linearizable_add_get_simulation.
+
+(** (b) every Add / GetLeafValue that has its answer is in that sequence with
+    exactly this answer *)
+Theorem C10_linearizable_add_get_complete :
+  forall ops s log ev,
+    reach_lin ops s log ev -> forall i t r,
+    nth_error (thr s) i = Some t -> point_op (top t) = true -> CTreeConcAbs.res_of (tpc t) = Some r -> In (i, r) ev.
+Proof. exact lin_complete. Qed.
+Print Assumptions C10_linearizable_add_get_complete.
+
+(** (c) no call is in it twice *)
+Theorem C10_linearizable_add_get_unique :
+  forall ops s log ev,
+    forallb quiet_op ops = true -> reach_lin ops s log ev -> NoDup (map fst ev).
+Proof. exact lin_unique. Qed.
+Print Assumptions C10_linearizable_add_get_unique.
+
+(** (d) real-time order: a call that returned before another one was invoked
+    precedes it *)
+Theorem C10_linearizable_add_get_real_time :
+  forall ops s1 log1 ev1 s2 log2 ev2 a ta ra b tb o rb,
+    forallb quiet_op ops = true ->
+    reach_lin ops s1 log1 ev1 -> run_lin ops (s1, log1, ev1) (s2, log2, ev2) ->
+    nth_error (thr s1) a = Some ta -> point_op (top ta) = true -> tpc ta = PDone ra ->
+    nth_error (thr s1) b = Some tb -> tpc tb = PStart o ->
+    In (b, rb) ev2 ->
+    exists l1 l2 l3, ev2 = l1 ++ (a, ra) :: l2 ++ (b, rb) :: l3.
+Proof. exact lin_real_time. Qed.
+Print Assumptions C10_linearizable_add_get_real_time.
+
+(** every run has such an instrumented version *)
+Theorem C10_reach_has_lin :
+  forall ops s, reach ops s -> exists log ev, reach_lin ops s log ev.
+Proof. exact reach_reach_lin. Qed.
+Print Assumptions C10_reach_has_lin.
+
+(** the chain an Add inserts stays private until that Add returns: its final
+    store finds its own value *)
+Theorem C10_add_rewalk_store_is_noop :
+  forall ops s log i t p v t0 v',
+    forallb quiet_op ops = true -> reach_log ops s log ->
+    nth_error (thr s) i = Some t -> top t = CAdd p v -> tpc t = PAddTCrit t0 v' ->
+    In (i, p, v) log ->
+    get_cont (hp s) t0 = CLeaf v /\ absf (hp s) p = Some v.
+Proof. exact add_rewalk_store_is_noop. Qed.
+Print Assumptions C10_add_rewalk_store_is_noop.
+
 (** query stability, soundness half: what a Query / Walk reports is stored, with
     that value, at the moment of the report *)
 Theorem C10_query_stability_partial :
@@ -272,16 +335,41 @@ Theorem C10_window_check_linearizable :
 Proof. exact window_check_linearizable. Qed.
 Print Assumptions C10_window_check_linearizable.
 
-(* linearizable_point_ops (full statement, NOT proved over the LTS):
-     forall ops s, reach ops s -> all threads done ->
-       linearizable (flat specification of C09) [] (history of the run) (abs (hp s) = .)
-   with linearization points: the write step of Add (PAddTCrit / the inserting
-   PAddSlow), the final read of Get, the critical section of Delete.
-   Proved parts: C10_linearizable_point_ops_partial with its two corollaries
-   (Get's final read and Add's write act on the node currently stored at the
-   path), C10_delete_atomic (Delete's point is exclusive),
-   C10_upgrade_recheck + C10_concurrent_adds_survive (Add's effect is never
-   undone by another Add), C10_no_data_race (every point is a guarded access).
-   quiescent_serializable and query_stability over the LTS: not proved; they
-   are checked on the implementation's histories by K_P
-   (C10_window_check_linearizable, C10Check.query_ok). *)
+(** query stability, completeness half: a Query / Walk whose visitor does not
+    fail reports every leaf that matches it and was stored when it was invoked
+    (in these programs such a leaf stays stored during the whole query) *)
+Theorem C10_query_stability_complete :
+  forall ops s1 s2 i t1 t2 q acc,
+    forallb quiet_op ops = true -> reach ops s1 -> steps s1 s2 ->
+    nth_error (thr s1) i = Some t1 -> tpc t1 = PStart (CQuery q None) ->
+    nth_error (thr s2) i = Some t2 -> tpc t2 = PDone (XLeaves acc) ->
+    forall pth, absf (hp s1) pth <> None -> qmatch q pth = true -> In pth (map fst acc).
+Proof. exact query_reports_all. Qed.
+Print Assumptions C10_query_stability_complete.
+
+(** with Delete in the program (no handle Update): whatever is stored was
+    written by an Add of the program -- Delete only removes *)
+Theorem C10_stored_was_added :
+  forall ops s log,
+    forallb no_hupd_op ops = true -> reach_log ops s log ->
+    forall q v, absf (hp s) q = Some v -> exists i, In (i, q, v) log.
+Proof. exact stored_was_added. Qed.
+Print Assumptions C10_stored_was_added.
+
+(* What is still NOT proved over the LTS:
+   - linearizable_point_ops WITH Delete: Delete's critical sections (one per
+     visited node, all under the root write lock, C10_delete_atomic) are shown
+     to only remove (C10_step_abs_effect, ae_remove) and to act on locked nodes
+     (C10_no_data_race); that their net effect and the returned paths are the
+     specification's [fkeep]/[fselect] -- a refinement of the frame machine
+     PLVisit/PLNext/PLBack to CTreeModel.del_node -- is not proved.
+     Full statement:
+       forall ops s log ev, forallb patched_op ops = true -> reach_lin' ops s log ev ->
+         exists m, spec_run' (fun _ => None) (ev_ops ops ev) m /\ forall q, m q = absf (hp s) q
+     with spec_run' extended by  Delete q / XPaths (map fst (select q m)) / keep q m.
+   - quiescent_serializable with Delete (follows from the above).
+   - query_stability in the presence of Delete / handle Update (both halves are
+     proved for programs without them: C10_query_stability_partial = soundness,
+     C10_query_stability_complete = completeness).
+   These clauses are judged on every implementation history by the verified
+   checker (C10_window_check_linearizable, C10Check.query_ok). *)
